@@ -32,15 +32,22 @@ func (ctl *HTTPGroupController) Register(
 	routeConfig vhost.RouteConfig,
 ) (err error) {
 	indexKey := group
-	ctl.mu.Lock()
-	g, ok := ctl.groups[indexKey]
-	if !ok {
-		g = NewHTTPGroup(ctl)
-		ctl.groups[indexKey] = g
-	}
-	ctl.mu.Unlock()
+	for {
+		ctl.mu.Lock()
+		g, ok := ctl.groups[indexKey]
+		if !ok {
+			g = NewHTTPGroup(ctl)
+			ctl.groups[indexKey] = g
+		}
+		ctl.mu.Unlock()
 
-	return g.Register(proxyName, group, groupKey, routeConfig)
+		err = g.Register(proxyName, group, groupKey, routeConfig)
+		if err == errGroupClosed {
+			// the last member left between the lookup and the join: use a fresh group
+			continue
+		}
+		return
+	}
 }
 
 func (ctl *HTTPGroupController) UnRegister(proxyName, group string, _ vhost.RouteConfig) {
@@ -70,6 +77,7 @@ type HTTPGroup struct {
 	pxyNames    []string
 	index       uint64
 	ctl         *HTTPGroupController
+	closed      bool
 	mu          sync.RWMutex
 }
 
@@ -87,6 +95,9 @@ func (g *HTTPGroup) Register(
 ) (err error) {
 	g.mu.Lock()
 	defer g.mu.Unlock()
+	if g.closed {
+		return errGroupClosed
+	}
 	if len(g.createFuncs) == 0 {
 		// the first proxy in this group
 		tmp := routeConfig // copy object
@@ -136,6 +147,8 @@ func (g *HTTPGroup) UnRegister(proxyName string) (isEmpty bool) {
 
 	if len(g.createFuncs) == 0 {
 		isEmpty = true
+		// the controller removes an empty group: nobody may join this object anymore
+		g.closed = true
 		g.ctl.vhostRouter.Del(g.domain, g.location, g.routeByHTTPUser)
 	}
 	return
